@@ -441,6 +441,7 @@ func (g *G) mapObjectPayload(meth *m.Method, hasBodyVerb bool) {
 		case "query":
 			mp := m.Mapping{Attr: f.Name, Wire: g.wire("query", f.Name, used)}
 			h.Query = append(h.Query, mp)
+			g.mappingBound(f)
 			g.feat("query-param")
 			if g.d.Underlying(f.Attr) == m.Array {
 				g.feat("query-array")
@@ -448,6 +449,9 @@ func (g *G) mapObjectPayload(meth *m.Method, hasBodyVerb bool) {
 		case "header":
 			mp := m.Mapping{Attr: f.Name, Wire: g.wire("header", f.Name, used)}
 			h.Headers = append(h.Headers, mp)
+			if !g.avoid("C04-validation-written-in-header-mapping-not-enforced") {
+				g.mappingBound(f)
+			}
 			g.feat("header")
 			if g.d.Underlying(f.Attr) == m.Array {
 				g.feat("header-array")
@@ -515,6 +519,51 @@ func (g *G) mapObjectPayload(meth *m.Method, hasBodyVerb bool) {
 	}
 	if nloc >= 2 {
 		g.feat("multi-location")
+	}
+}
+
+// mappingBound sometimes gives a query or header parameter an upper bound
+// written in the mapping (Param("x", func(){ Maximum(50) })). The bound
+// complements what the attribute's type already says (an alias with a Minimum
+// gets a Maximum, a plain string a MaxLength), so valid values exist.
+func (g *G) mappingBound(f *m.Field) {
+	if !g.p.Validations || !f.Attr.V.Empty() || f.Attr.Default != nil || rapid.IntRange(0, 3).Draw(g.t, "mapbound:"+f.Name) != 0 {
+		return
+	}
+	_, chain := g.d.Resolve(f.Attr)
+	mv := mergedValidation(chain)
+	if len(mv.Enum) > 0 || mv.Format != "" || mv.Pattern != "" {
+		return
+	}
+	switch k := g.d.Underlying(f.Attr); {
+	case k.IsInt():
+		if mv.Max != nil || mv.ExclMax != nil {
+			return
+		}
+		lo := 0.0
+		if mv.Min != nil {
+			lo = *mv.Min
+		}
+		if mv.ExclMin != nil {
+			lo = *mv.ExclMin + 1
+		}
+		f.Attr.V = &m.Validation{Max: fp(lo + 40)}
+	case k == m.String:
+		if mv.MaxLen != nil {
+			return
+		}
+		lo := 0
+		if mv.MinLen != nil {
+			lo = *mv.MinLen
+		}
+		f.Attr.V = &m.Validation{MaxLen: ip(lo + 6)}
+	default:
+		return
+	}
+	f.Attr.VAtMapping = true
+	g.feat("validation-in-mapping")
+	if f.Attr.Type.Kind == m.User {
+		g.feat("validation-in-mapping-on-alias")
 	}
 }
 
